@@ -20,7 +20,8 @@ use std::time::{Duration, Instant};
 use tokio::net::{TcpListener, TcpStream};
 use tokio::sync::mpsc::{unbounded_channel, UnboundedReceiver, UnboundedSender};
 use tokio_tungstenite::tungstenite::Message as WsMsg;
-use tokio_tungstenite::{MaybeTlsStream, WebSocketStream};
+use std::future::Future;
+use tokio_tungstenite::WebSocketStream;
 
 const WATCHDOG: Duration = Duration::from_secs(30);
 /// how long a slot may take to become free again after its handler was seen to exit
@@ -317,6 +318,95 @@ async fn start_server(cap: Option<usize>, mw: bool, ocap: Option<usize>, dflt: b
 }
 
 // ------------------------------------------------------------------------------------------------
+// a TCP stream whose writes reach the peer in small pieces (and, optionally, with stalls)
+// ------------------------------------------------------------------------------------------------
+/// `mode 0`: pass through. `1`: every write is cut into 1-byte pieces. `2`: 2–3 pieces per write at
+/// PRNG-chosen cut points. `3`: pieces of up to 1460 bytes. `+4`: stalls (1–3 ms, now and then 120 ms)
+/// between pieces; with `1+4` the first 16 and last 8 bytes of a buffer go byte by byte, the rest in 1–3 pieces. Each piece is its own `write` on a no-delay socket.
+struct ChopStream {
+    inner: TcpStream,
+    mode: u8,
+    rng: Rng,
+    sleep: Option<std::pin::Pin<Box<tokio::time::Sleep>>>,
+    /// bytes of the current write that may still go out before the next cut
+    budget: usize,
+    /// position inside the buffer tungstenite is flushing, and what was left of it after the last write
+    pos: usize,
+    last_remaining: usize,
+}
+
+impl ChopStream {
+    fn new(inner: TcpStream, mode: u8, seed: u64) -> ChopStream {
+        let _ = inner.set_nodelay(true);
+        ChopStream { inner, mode, rng: Rng::new(seed), sleep: None, budget: 0, pos: 0, last_remaining: 0 }
+    }
+}
+
+impl tokio::io::AsyncRead for ChopStream {
+    fn poll_read(mut self: std::pin::Pin<&mut Self>, cx: &mut std::task::Context<'_>, buf: &mut tokio::io::ReadBuf<'_>) -> std::task::Poll<std::io::Result<()>> {
+        std::pin::Pin::new(&mut self.inner).poll_read(cx, buf)
+    }
+}
+
+impl tokio::io::AsyncWrite for ChopStream {
+    fn poll_write(mut self: std::pin::Pin<&mut Self>, cx: &mut std::task::Context<'_>, buf: &[u8]) -> std::task::Poll<std::io::Result<usize>> {
+        use std::task::Poll;
+        let this = &mut *self;
+        if this.mode & 3 == 0 || buf.is_empty() {
+            return std::pin::Pin::new(&mut this.inner).poll_write(cx, buf);
+        }
+        if let Some(s) = this.sleep.as_mut() {
+            if s.as_mut().poll(cx).is_pending() {
+                return Poll::Pending;
+            }
+            this.sleep = None;
+        }
+        if buf.len() > this.last_remaining {
+            this.pos = 0; // a new buffer is being flushed
+        }
+        if this.budget == 0 {
+            this.budget = match this.mode & 3 {
+                // with stalls: byte by byte through the first and the last 64 bytes, the middle in bulk
+                1 if this.mode & 4 != 0 && this.pos >= 16 && buf.len() > 8 => ((buf.len() - 8) / (1 + this.rng.below(3) as usize)).max(1) + this.rng.below(5) as usize,
+                1 => 1,
+                2 => (buf.len() / (2 + this.rng.below(2) as usize)).max(1) + this.rng.below(3) as usize,
+                _ => 1460,
+            };
+        }
+        let n = this.budget.min(buf.len());
+        match std::pin::Pin::new(&mut this.inner).poll_write(cx, &buf[..n]) {
+            Poll::Ready(Ok(w)) => {
+                this.budget -= w.min(this.budget);
+                this.pos += w;
+                this.last_remaining = buf.len() - w;
+                if this.mode & 4 != 0 && this.rng.chance(1, 4) {
+                    let ms = if this.rng.chance(1, 60) { 120 } else { this.rng.range(1, 3) };
+                    this.sleep = Some(Box::pin(tokio::time::sleep(Duration::from_millis(ms))));
+                }
+                Poll::Ready(Ok(w))
+            }
+            other => other,
+        }
+    }
+    fn poll_flush(mut self: std::pin::Pin<&mut Self>, cx: &mut std::task::Context<'_>) -> std::task::Poll<std::io::Result<()>> {
+        std::pin::Pin::new(&mut self.inner).poll_flush(cx)
+    }
+    fn poll_shutdown(mut self: std::pin::Pin<&mut Self>, cx: &mut std::task::Context<'_>) -> std::task::Poll<std::io::Result<()>> {
+        std::pin::Pin::new(&mut self.inner).poll_shutdown(cx)
+    }
+}
+
+async fn chop_connect(addr: SocketAddr, cfg: Option<tokio_tungstenite::tungstenite::protocol::WebSocketConfig>, mode: u8, seed: u64) -> Result<WebSocketStream<ChopStream>, String> {
+    let tcp = TcpStream::connect(addr).await.map_err(|e| format!("connect: {e}"))?;
+    let url = format!("ws://{}/repe", addr);
+    // the HTTP upgrade goes out whole: tungstenite's server handshake rejects a request head that arrives in
+    // more than 64 tiny reads as an attack (its own rule, not repe's); the REPE frames after it are chopped
+    let (mut ws, _) = tokio_tungstenite::client_async_with_config(url, ChopStream::new(tcp, 0, seed), cfg).await.map_err(|e| format!("handshake: {e}"))?;
+    ws.get_mut().mode = mode;
+    Ok(ws)
+}
+
+// ------------------------------------------------------------------------------------------------
 // ops
 // ------------------------------------------------------------------------------------------------
 #[derive(Clone, Debug)]
@@ -383,7 +473,7 @@ fn parse_op(line: &str) -> Option<(String, Op)> {
 // one connection
 // ------------------------------------------------------------------------------------------------
 struct Conn {
-    ws: WebSocketStream<MaybeTlsStream<TcpStream>>,
+    ws: WebSocketStream<ChopStream>,
     events: UnboundedReceiver<SrvEvent>,
     sh: Arc<Shared>,
     cap: Option<usize>,
@@ -1372,11 +1462,15 @@ async fn run_script(out: &mut Out, servers: &mut HashMap<SrvKey, Srv>, sno: usiz
     let (tx, rx) = unbounded_channel();
     *srv.sh.events.lock().unwrap() = Some(tx);
     srv.sh.max_gauge.store(0, Ordering::SeqCst);
-    let url = format!("ws://{}/repe", srv.addr);
-    let ws = match tokio::time::timeout(WATCHDOG, tokio_tungstenite::connect_async_with_config(&url, None, true)).await {
-        Ok(Ok((ws, _))) => ws,
-        _ => {
-            out.oracle_fail("offreader.setup", "could not connect to the server", &[]);
+    let addr = srv.addr;
+    // how this script's frames reach the server: in one piece, or chopped (by script number: replay-exact
+    // for a whole run; a replayed single script is sent unchopped unless it is the same number)
+    let chop: u8 = match sno % 9 { 2 => 1, 4 => 2, 5 => 3, 7 => 5, 8 => 6, _ => 0 };
+    out.count(&format!("offreader.client_writes.chop_mode_{}", chop));
+    let ws = match tokio::time::timeout(WATCHDOG, chop_connect(srv.addr, None, chop, sno as u64)).await {
+        Ok(Ok(ws)) => ws,
+        other => {
+            out.oracle_fail("offreader.setup", &format!("could not connect to the server (chop mode {}): {:?}", chop, other.map(|r| r.err())), &[]);
             return false;
         }
     };
@@ -1543,8 +1637,8 @@ async fn run_script(out: &mut Out, servers: &mut HashMap<SrvKey, Srv>, sno: usiz
                 let parked: Vec<u64> = c.parked.keys().cloned().collect();
                 c.orphans.extend(parked);
                 c.parked.clear();
-                match tokio::time::timeout(WATCHDOG, tokio_tungstenite::connect_async_with_config(&url, None, true)).await {
-                    Ok(Ok((ws, _))) => {
+                match tokio::time::timeout(WATCHDOG, chop_connect(addr, None, chop, sno as u64 + 1000)).await {
+                    Ok(Ok(ws)) => {
                         let old = std::mem::replace(&mut c.ws, ws);
                         drop(old);
                     }
